@@ -30,6 +30,8 @@ RULE = ("cases: histories of add_sample (indices as list/tuple/set/ndarray, repe
         "designs, dyadic values), update, clear_data, flag toggles (as Auer/PaVeBa do), predict; shapes: "
         "single batch, interleaved rounds, clears (incl. empty clears), stale (update omitted), flags, "
         "rejected adds (index >= count, length mismatch), power-of-two counts, long PaVeBa-like runs, "
+        "a fixed family of tie cases (2/3/5 identical samples; single/split/interleaved; +-offset; int/float "
+        "arrays; noise_var 0.25/1/4/0; tracked or not; then-one-different, two-distinct-then-duplicates), "
         "noise_var grid {0.0, 0, np 0.0, 1e-12, 0.25, 1, 4} (every 3rd case), large common offsets 2^20..2^30 / "
         "1e8 per (design, objective) with small dyadic spread (every 4th case), "
         "re-batched/permuted pairs of histories, quirks (negative indices, empty adds, multi-sample rows); "
@@ -220,9 +222,67 @@ def _noise_obj(case):
     return float(case["noise"])
 
 
+def _tie_cases(seed):
+    """Deterministic structured family (own RNG sub-stream; the same shapes in every run): a design whose
+    2 / 3 / 5 samples are ALL equal — population variance exactly 0, not the configured noise variance —
+    delivered as one batch, split batches or interleaved with another design; with and without a large
+    offset; integer and float sample arrays; noise_var 0.25 / 1 / 4 and 0 (control: both readings agree);
+    variances tracked or not; then `all equal, then one different` and `two distinct, then duplicates`."""
+    import random
+
+    rng = random.Random(f"C16-ties:{seed}")
+    k = 0
+    for noise in (0.25, 1.0, 4.0, 0.0):
+        for n_same in (2, 3, 5):
+            for layout in ("single", "split", "interleaved"):
+                k += 1
+                m, count = 2 + k % 2, 3
+                off = [0.0, 2.0 ** 24][k % 2]
+                as_int = (k // 2) % 2 == 0
+                tv0 = (k % 5) != 0
+                tie = [float(rng.randint(-8, 8)) + off for _ in range(m)]
+                if not as_int:
+                    tie = [v + rng.choice([0.5, 0.25, -0.125]) for v in tie]
+                other = [[float(rng.randint(-8, 8)) for _ in range(m)] for _ in range(n_same)]
+                dt = "int" if as_int else "float"
+                ops = []
+                if layout == "single":
+                    ops.append({"op": "add", "kind": "list", "idx": [0] * n_same + [1, 1], "dtype": dt,
+                                "Y": [list(tie) for _ in range(n_same)] + other[:2]})
+                elif layout == "split":
+                    for _ in range(n_same):
+                        ops += [{"op": "add", "kind": "ndarray", "idx": [0], "dtype": dt, "Y": [list(tie)]},
+                                {"op": "update"}, {"op": "predict", "idx": [0, 1, 2]}]
+                else:
+                    for j in range(n_same):
+                        idx, Y = ([0, 1], [list(tie), other[j]]) if j % 2 == 0 else ([1, 0], [other[j], list(tie)])
+                        ops.append({"op": "add", "kind": "tuple", "idx": idx, "dtype": dt, "Y": Y})
+                ops += [{"op": "update"}, {"op": "predict", "idx": [0, 1, 2]}]
+                if not tv0:
+                    ops += [{"op": "flags", "tm": True, "tv": True}, {"op": "update"},
+                            {"op": "predict", "idx": [2, 1, 0]}]
+                variant = k % 3
+                if variant == 0:      # all equal, then one different sample
+                    diff = list(tie)
+                    diff[0] += 2.0
+                    ops += [{"op": "add", "kind": "list", "idx": [0], "dtype": dt, "Y": [diff]},
+                            {"op": "update"}, {"op": "predict", "idx": [0, 1, 2]}]
+                elif variant == 1:    # two distinct (design 2), then duplicates of the first
+                    a = [float(rng.randint(-4, 4)) + off for _ in range(m)]
+                    b = [v + 1.0 for v in a]
+                    ops += [{"op": "add", "kind": "list", "idx": [2, 2], "dtype": dt, "Y": [a, b]},
+                            {"op": "update"}, {"op": "predict", "idx": [2]},
+                            {"op": "add", "kind": "list", "idx": [2, 2, 2], "dtype": dt, "Y": [a, a, a]},
+                            {"op": "update"}, {"op": "predict", "idx": [0, 1, 2]}]
+                yield {"kind": "hist", "shape": "ties", "m": m, "count": count, "noise": noise,
+                       "noise_form": "float", "tm": True, "tv": tv0, "y1d": False, "ops": ops}
+
+
 def gen(ctx):
     rng = ctx.rng
     thorough = ctx.tier == "thorough"
+    if ctx.worker == 0:
+        yield from _tie_cases(ctx.seed)
     for k in range(ctx.n(300, 20000)):
         shape = SHAPES[k % len(SHAPES)] if k < 3 * len(SHAPES) else rng.choice(SHAPES)
         m = rng.choice([1, 2, 2, 3, 4])
@@ -426,6 +486,9 @@ def _execute_raw(ctx, case, ops, tag, scrub, mutate):
                     Yarr = np.empty(len(Y), dtype=object)
                     for i_, r in enumerate(Y):
                         Yarr[i_] = np.array(r, dtype=float)
+            int_rows = op.get("dtype") == "int" and Yarr.dtype != object
+            if int_rows:
+                Yarr = Yarr.astype(np.int64)        # integer observation array (values are integers)
             lean_ops.append("A:" + _ints(order) + ":" + core.qmat(Y))
             # classify from the property's point of view
             if len(order) != len(Y):
@@ -440,7 +503,7 @@ def _execute_raw(ctx, case, ops, tag, scrub, mutate):
                 cls = "clean"
             ctx.count("add_" + cls)
             ctx.count("container_" + op["kind"])
-            if scrub and Yarr.dtype != object and Yarr.ndim == 2 and Yarr.shape[0] <= len(buf) \
+            if scrub and not int_rows and Yarr.dtype != object and Yarr.ndim == 2 and Yarr.shape[0] <= len(buf) \
                     and Yarr.shape[1] == m:
                 buf[:len(Yarr)] = Yarr          # the caller's single observation buffer, refilled each call
                 Yarr = buf[:len(Yarr)]
@@ -456,7 +519,7 @@ def _execute_raw(ctx, case, ops, tag, scrub, mutate):
                     for a_ in Yarr:
                         a_.fill(GARBAGE)
                 else:
-                    Yarr.fill(GARBAGE)
+                    Yarr.fill(977 if int_rows else GARBAGE)
                 buf.fill(GARBAGE)
                 if isinstance(cont, np.ndarray):
                     cont.fill(0)
